@@ -179,7 +179,7 @@ def run(ctx):
     # ---- finite-domain helpers: tabulated from the Go code, proved equal to the model ----
     tab = json.load(open(tabf))
     os.makedirs(vlib.GEN, exist_ok=True)
-    tabv = os.path.join(vlib.GEN, "tab_C08.v")
+    tabv = os.path.join(vlib.GEN, "tab_C08_p%d.v" % os.getpid())
     open(tabv, "w").write(tab_text(tab))
     rc, o = vlib.sh(["coqc", "-Q", ".", "Verif", tabv], cwd=vlib.COQ, timeout=600)
     tab_ok = rc == 0
